@@ -50,6 +50,14 @@ WithinUlps(m, e, lo, hi, tol) ==
       t == MulSmall(UlpScaled(m, e), tol)
   IN  /\ Le(ScaledOf(lo), Add(v, t))
       /\ Le(v, Add(ScaledOf(hi), t))
+\* the same with the tolerance in 1/1024 ulp (values >= 8, where an ulp is at least 2^10 units of the 2^-K scale; below that one whole ulp)
+WithinUlpsFine(m, e, lo, hi, tol1024) ==
+  IF (IntBits(m) + e - 1) - 23 + K < 10 THEN WithinUlps(m, e, lo, hi, 1)
+  ELSE LET v == ScaledFloat(m, e)
+           t == Shl(One, (IntBits(m) + e - 1) - 23 + K - 10)          \* ulp / 1024
+           tt == MulSmall(t, tol1024)
+       IN  /\ Le(ScaledOf(lo), Add(v, tt))
+           /\ Le(v, Add(ScaledOf(hi), tt))
 \* v <= hi + tol*ulp  (never overstates)
 NotAbove(m, e, hi, tol) == Le(ScaledFloat(m, e), Add(ScaledOf(hi), MulSmall(UlpScaled(m, e), tol)))
 
